@@ -30,7 +30,7 @@ class C18(Profile):
     probes = ['newest_on_last_member', 'newest_on_first_member', 'same_version_on_two_members',
               'relationship_and_endpoint_on_different_members', 'nested_composite', 'self_loop', 'detached_member_excluded',
               'composite_filter_attached', 'related_to_nonempty', 'creator_found', 'creator_missing', 'env_facade',
-              'navigation_by_id_string', 'relationships_nonempty', 'source_only', 'target_only', 'static_memory_source']
+              'navigation_by_id_string', 'relationships_nonempty', 'source_only', 'target_only', 'static_memory_source', 'dict_kept_versions_federated']
     rule = ('plans: 2-4 member sources (MemoryStore, FileSystemStore on the simulated disk, static MemorySource), a population of <=30 '
             'object versions and <=10 relationships partitioned over the members by the plan (overlaps, different versions of one id on '
             'different members), then 20-50 reads/navigation calls through composite / nested composite / Environment / plain store in a '
@@ -66,6 +66,13 @@ class C18(Profile):
             if e.get('creator') is None:
                 e.pop('creator', None)
         n_obj = len(pool)
+        if rng.random() < 0.2:
+            # objects kept as dicts, timestamps spelled with varying numbers of digits, spread over the members
+            extra = SW.gen_pool(rng, index + 700000, rng.randrange(1, 3), 4, [('unreg', 1)], digits_mixed=True)
+            for e in extra:
+                if not e['versions']:
+                    e['versions'] = [1500000000000000 + 7 * (len(pool) + 1)]
+            pool.extend(extra)
         for r in range(rng.randrange(1, 8)):
             src = rng.randrange(n_obj)
             dst = src if rng.random() < 0.15 else rng.randrange(n_obj)
@@ -212,6 +219,11 @@ class C18(Profile):
         val, d = sw.make_input(k, j, op.get('as', 'obj'))
         if val is None:
             return
+        if sw.pool[k]['kind'] == 'unreg' and (op['member'] + j) % 2 and isinstance(d.get('modified'), str):
+            # the same version spelled differently on different members (kept as dicts: the text is what the stores see)
+            us, nd = tsparse.parse(d['modified'])
+            d = dict(d, modified=tsparse.fmt(us, digits=6) if nd < 6 else tsparse.fmt(us))
+            val = C._copy(d)
         out = call(self.members[m].add, val)
         key = SW.key_of(d)
         if out.ok:
@@ -340,6 +352,8 @@ class C18(Profile):
                         world.probe('newest_on_last_member')
                     if holders and holders[0] == mems[0]:
                         world.probe('newest_on_first_member')
+            if e['kind'] == 'unreg' and len(mems) > 1 and len(allv) > 1:
+                world.probe('dict_kept_versions_federated')
             world.state(fac, kind, len(mems), bool(vs))
         elif kind == 'all_versions':
             out = call(target.all_versions, sid)
